@@ -130,14 +130,27 @@ func unwindEANOther(cc *checkCtx) []oblRes {
 	return out
 }
 
-func unwindEAN(c *checkCtx, tier string) []oblRes {
-	out := unwindEANOther(c)
-	for _, n := range []int{7, 8, 12, 13} {
-		for p := -1; p < n; p++ {
-			out = append(out, unwindEANCase(c, n, p)...)
+var unwEAN = &Unwinder{
+	Name: "ean",
+	Jobs: func(tier string) []string {
+		jobs := []string{"other"}
+		for _, n := range []int{13, 12, 8, 7} {
+			for p := -1; p < n; p++ {
+				jobs = append(jobs, fmt.Sprintf("len:%d:%d", n, p))
+			}
 		}
-	}
-	return out
+		return jobs
+	},
+	Run: func(c *checkCtx, job string) []oblRes {
+		if job == "other" {
+			return unwindEANOther(c)
+		}
+		var n, p int
+		if _, err := fmt.Sscanf(job, "len:%d:%d", &n, &p); err != nil {
+			return []oblRes{{Name: "config/ean/" + job, Kind: "config", Output: "bad job"}}
+		}
+		return unwindEANCase(c, n, p)
+	},
 }
 
 func unwindEANCase(cc *checkCtx, n, p int) []oblRes {
